@@ -22,22 +22,35 @@ from gen import c08_gen as G
 
 CLAIMED = True
 LEVEL = "proof"
-TECHNIQUE = ("Lean 4 invariant/erasure proofs over a hand model of the indent state machine and option selection, "
-             "translator-regenerated call-point lists and HTML element table, and a correspondence run against the real "
-             "serializers and XalanTransformer with parse-back specification predicates")
-LEVEL_TEXT = ("Machine-checked for every SAX event sequence: the indenting XML serializer's token stream with the "
-              "indent handler's tokens erased equals the non-indenting stream (indent_erasure), and no inserted token is "
-              "adjacent to a character-data token whenever every text-writing handler tells the indent handler so "
-              "(indent_not_adjacent_to_text; on the unrepaired tree writeCDATA/charactersRaw do not: "
-              "indent_adjacent_cdata_counterexample, replayed on the real code as a known finding). Header options, "
-              "cdata-section-elements and the text method are proved lexical on the model. The model is tied to the working "
-              "tree by regenerated call-point lists (callpoints_match) and by byte-exact comparison of model and real output.")
-LEVEL_NOTE = ("Trusted: Lean kernel; axioms propext/Classical.choice/Quot.sound only; the hand transcription of "
-              "FormatterToXMLUnicode.hpp/XalanIndentWriter.hpp/StylesheetRoot::setupFormatterListener (checked by the "
-              "call-point translator and the correspondence run, bounded by generator coverage); character escaping is "
-              "modelled only for the generated character classes (C04 owns it); FormatterToHTML is modelled for ASCII content "
-              "and checked mainly through the HTML-reader predicate on real output; expat and the small HTML reader in "
-              "checks/c08.py are the parse-back oracles; transcoders/ICU/Xerces modelled, not verified.")
+TECHNIQUE = ("Lean 4 proofs (erasure, invariants by induction over SAX event sequences, simulation over result trees) about hand "
+             "models of the XML and HTML serializers' indent state machines, option selection and the text method; the models' "
+             "call sequences, character-class tables, HTML element and entity tables and five source facts are regenerated from "
+             "/repo by two translators on every run; a correspondence run compares the model's rendering exactly with the real "
+             "serializers and XalanTransformer and evaluates parse-back predicates (expat, an HTML reader, raw text) on every "
+             "real output")
+LEVEL_TEXT = ("Machine-checked, for every SAX event sequence and every option setting of the models: erasing the tokens the "
+              "indent handler wrote gives the non-indenting stream, for the XML serializer (indent_erasure) and for the HTML "
+              "serializer on both its element paths (html_indent_erasure); no inserted token is adjacent to a character-data "
+              "token, so indentation only adds new whitespace-only text nodes between tags (indent_not_adjacent_to_text for "
+              "the source as it is now; html_indent_not_adjacent_to_text for every sequence in which no void element is given "
+              "children); version, encoding, standalone, omit-xml-declaration, doctype, indent amount and "
+              "cdata-section-elements never change the content-bearing tokens (options_lexical, cdata_sections_lexical); the "
+              "text method writes the string-value of the result tree and, once FormatterToText reports unrepresentable "
+              "characters, never a substituted text (text_method_spec, text_method_encoded_spec); void elements get no end "
+              "tag and the regenerated HTML tables satisfy what the lookups need (html_void_no_end_tag, html_void_and_raw_flags, "
+              "html_table_sorted, html_entities_sorted). Counterexample theorems record where an unrepaired source violates a "
+              "statement. The models are tied to the working tree by callpoints_match over regenerated call sequences and by "
+              "exact comparison of model rendering and real output on ~30 000 (quick) / ~305 000 (thorough) generated cases.")
+LEVEL_NOTE = ("Trusted: the Lean kernel (leanchecker re-check in the thorough tier); axioms propext, Classical.choice, Quot.sound "
+              "only; the hand transcriptions of FormatterToXMLUnicode.hpp, XalanIndentWriter.hpp, FormatterToHTML.cpp, the "
+              "FormatterToXML base, FormatterToText.cpp, StylesheetRoot::processOutputSpec/setupFormatterListener and the "
+              "flushPending HTML switch (checked by the translators' shape tests, callpoints_match and the correspondence run; "
+              "bounded by generator coverage, which is reported in the evidence); the two regex translators; harness, "
+              "generator, expat and the HTML reader of checks/c08.py as parse-back oracles. Modelled, not verified: "
+              "transcoders/ICU/Xerces, XalanOutputStream buffering, characters outside the BMP in HTML and under non-Unicode "
+              "XML encodings (read-back predicates only), non-ASCII comments/PIs in HTML. html_indent_not_adjacent_to_text "
+              "assumes no void element is given children (counterexample proved and replayed). One known finding remains: "
+              "method=text silently substitutes 0x1A for characters the encoding cannot represent (repair proposed).")
 DESIGN_REF = "DESIGN.md section 5, C08; design/C08.md"
 
 P = "XalanModel.Props.C08."
@@ -52,8 +65,11 @@ THEOREMS = [P + n for n in [
     "cdata_sections_lexical",
     "text_method_spec",
     "text_method_ignores_options",
+    "text_method_encoded_spec",
+    "text_method_substitution_counterexample",
     "callpoints_match",
     "html_table_sorted",
+    "html_entities_sorted",
     "html_void_and_raw_flags",
     "html_void_no_end_tag",
     "html_indent_erasure",
@@ -671,6 +687,34 @@ NONCHAR_DOCS = [([("elem", "a", [], [("text", t)])], cd) for t in ["x\udc00y", "
 NONCHAR_DOCS += [([("elem", "a", [("k", "\udc00")], [])], []), ([("elem", "a", [], [("comment", "c\ud800")])], [])]
 
 
+def check_text_output(ctx, state, tag, enc, want, rep, mrep, line, inp):
+    """method=text: the output is the concatenated text in the requested encoding; a character the encoding cannot
+    represent is an error (XSLT 1.0 16.3) — the unrepaired source substitutes 0x1A instead (recorded finding)"""
+    mx = MAXCHAR.get(enc, 0x10FFFF)
+    representable = all(ord(c) <= mx for c in want)
+    if not rep.startswith("ok "):
+        if representable:
+            ctx.fail("text.error[%s]" % tag, "text method failed on representable text: " + rep, inp)
+        elif not mrep.startswith("ERR"):
+            state["disagree"](tag, line, rep, mrep, "text method: the model does not report the unrepresentable character")
+        return
+    try:
+        _, text = decode_out(rep[3:], enc)
+    except (UnicodeDecodeError, ValueError) as e:
+        ctx.fail("text.encoding[%s]" % tag, "output not valid %s: %s" % (enc, e), inp)
+        return
+    if not representable:
+        if text == "".join(c if ord(c) <= mx else "\x1a" for c in want):
+            ctx.fail("text.unrepresentable-replaced-by-sub[%s]" % enc,
+                     "method=text, encoding %s: characters the encoding cannot represent are silently written as 0x1A: %r for %r" % (enc, text[:80], want[:80]), inp)
+        else:
+            ctx.fail("text.not-string-value[%s]" % tag, "method=text output %r is not the text %r in %s" % (text[:200], want[:200], enc), inp)
+    elif text != want:
+        ctx.fail("text.not-string-value[%s]" % tag, "method=text output %r is not the concatenated text %r" % (text[:200], want[:200]), inp)
+    if model_text(mrep) != text:
+        state["disagree"](tag, line, text, model_text(mrep) if mrep.startswith("ok ") else mrep, "text method output differs")
+
+
 def run_sax_xml(ctx, r, runner, state):
     n = 1500 if not ctx.thorough else 12000
     docs = [(d, c) for d, c in CORPUS_DOCS + NONCHAR_DOCS]
@@ -690,8 +734,9 @@ def run_sax_xml(ctx, r, runner, state):
         meta.append((doc, cd, evs, variants, len(lines), ls))
         lines += ls
         # the same events into FormatterToText (SAX level, so that cdata()/charactersRaw() are exercised too)
-        tl = G.sax_line(dict(G.BASE_CFG, method="text", enc=r.choice(["UTF-8", "UTF-16"])), evs)
-        text_lines.append((len(lines), doc, evs, tl))
+        tenc = r.choice(["UTF-8", "UTF-16", "ISO-8859-1", "US-ASCII"])
+        tl = G.sax_line(dict(G.BASE_CFG, method="text", enc=tenc), evs)
+        text_lines.append((len(lines), doc, evs, tl, tenc))
         lines.append(tl)
     il, ml, irc, mrc, ierr, merr = runner.run(lines, "sax")
     if irc != 0 or len(il) < len(lines):
@@ -701,22 +746,12 @@ def run_sax_xml(ctx, r, runner, state):
     if mrc != 0 or len(ml) < len(lines):
         ctx.oblige("model driver ran to completion (sax)", "correspondence", False, merr[-600:])
         return
-    for off, doc, evs, tl in text_lines:
+    for off, doc, evs, tl, tenc in text_lines:
         want = "".join(e[1] for e in evs if e[0] in ("T", "C", "R"))
         if not valid_units(want):
             continue        # FormatterToText has no notion of XML characters
-        enc = "UTF-16" if " 005500540046002d00310036 " in tl else "UTF-8"
-        rep = il[off]
-        inp = {"kind": "sax", "variant": "text", "doc": doc, "line": tl}
         ctx.case(cls="sax:text")
-        if not rep.startswith("ok "):
-            ctx.fail("text.error[sax]", "FormatterToText reported " + rep, inp)
-            continue
-        _, text = decode_out(rep[3:], enc)
-        if text != want:
-            ctx.fail("text.not-string-value[sax]", "method=text output %r is not the concatenated text %r" % (text[:200], want[:200]), inp)
-        if model_text(ml[off]) != text:
-            state["disagree"]("text", tl, text, model_text(ml[off]), "text method output differs")
+        check_text_output(ctx, state, "sax", tenc, want, il[off], ml[off], tl, {"kind": "sax", "variant": "text", "doc": doc, "line": tl})
     for doc, cd, evs, variants, off, ls in meta:
         k = len(variants)
         check_xml_group(ctx, state, doc, evs, variants, il[off:off + k], ml[off:off + k], ls, cd, "sax")
@@ -816,14 +851,24 @@ def effective(out_attrs, api, doc):
     return ("xml" if method == "none" else method), enc or "UTF-8", indenting
 
 
+# implicit HTML (no xsl:output method, document element html) combined with cdata-section-elements: the switch to
+# the HTML formatter must also switch CDATA sections off (XSLTEngineImpl::flushPending resets m_hasCDATASectionElements)
+XF_SWITCH_CORPUS = [
+    ([("elem", "html", [], [("elem", "body", [], [("elem", "p", [], [("text", "x<y&z"), ("elem", "b", [], [("text", "t")]), ("text", "u")])])])], ["p", "b"], "none"),
+    ([("elem", "HTML", [], [("elem", "head", [], [("elem", "title", [], [("text", "a]]>b")])]), ("elem", "body", [], [("text", "w")])])], ["title", "body", "HTML"], "none"),
+    ([("elem", "html", [], [("elem", "body", [], [("elem", "script", [], [("text", "if (a<b) x();")]), ("elem", "p", [], [("text", "q")])])])], ["script", "p"], "none"),
+    # the same list with a non-html document element stays XML, with CDATA sections
+    ([("elem", "doc", [], [("elem", "p", [], [("text", "x<y&z"), ("elem", "b", [], [("text", "t")])])])], ["p", "b"], "none"),
+]
+
+
 def run_xf(ctx, r, runner, state, tab):
     n = 700 if not ctx.thorough else 6000
     lines, meta = [], []
-    corpus = [(d, c) for d, c in CORPUS_DOCS]
+    corpus = [(d, c, "xml") for d, c in CORPUS_DOCS] + XF_SWITCH_CORPUS
     for t in range(n + len(corpus)):
         if t < len(corpus):
-            doc, cd = corpus[t]
-            method = "xml"
+            doc, cd, method = corpus[t]
         else:
             method = r.weighted([("xml", 5), ("none", 3), ("text", 2), ("html", 4)])
             cd = None
@@ -872,29 +917,7 @@ def run_xf(ctx, r, runner, state, tab):
             want = "".join(text_of(doc))
             for (tag, oa, api), (m, enc, ind), rep, mrep, line in zip(settings, eff, reps, mreps, ls):
                 inp = {"kind": "xf", "variant": tag, "out": oa, "api": api, "doc": doc, "line": line[:3000]}
-                if not rep.startswith("ok "):
-                    ctx.fail("text.error[%s]" % tag, "transform failed: " + rep, inp)
-                    continue
-                try:
-                    _, text = decode_out(rep[3:], enc)
-                except (UnicodeDecodeError, ValueError) as e:
-                    if all(ord(c) <= (0xFF if enc == "ISO-8859-1" else 0x7F if enc == "US-ASCII" else 0x10FFFF) for c in want):
-                        ctx.fail("text.encoding[%s]" % tag, "output not valid %s: %s" % (enc, e), inp)
-                    continue
-                mx = MAXCHAR.get(enc, 0x10FFFF)
-                representable = all(ord(c) <= mx for c in want)
-                if not representable:
-                    if text == "".join(c if ord(c) <= mx else "\x1a" for c in want):
-                        ctx.fail("text.unrepresentable-replaced-by-sub[%s]" % enc,
-                                 "method=text, encoding %s: characters the encoding cannot represent are silently written as 0x1A: %r for %r" % (enc, text[:80], want[:80]), inp)
-                    else:
-                        ctx.fail("text.not-string-value[%s]" % tag, "method=text output %r is not the text %r in %s" % (text[:200], want[:200], enc), inp)
-                    continue
-                if representable and text != want:
-                    ctx.fail("text.not-string-value[%s]" % tag, "method=text output %r is not the concatenated text %r" % (text[:200], want[:200]), inp)
-                mt = model_text(mrep)
-                if representable and mt != text:
-                    state["disagree"](tag, line, text, mt, "text method output differs")
+                check_text_output(ctx, state, tag, enc, want, rep, mrep, line, inp)
         else:
             check_html_group(ctx, state, doc, settings, eff, reps, mreps, ls, tab)
         nt = nontrivial(doc)
@@ -911,7 +934,8 @@ def text_of(nodes):
 
 
 HTML_PLAIN = list("abcxyz 012") + ["<", ">", "&", '"', "\n", " "]
-HTML_TEXT = list("abcxyz 012") + ["<", ">", "&", '"', "\n", " ", "\u00e9", "\u00a0", "\u20ac"]
+HTML_TEXT = list("abcxyz 012") + ["<", ">", "&", '"', "'", "\n", " ", "\u00e9", "\u00a0", "\u20ac", "\t", "\r", "\x7f", "\u0085",
+                                   "\u009f", "\u00ff", "\u03b1", "\u0416", "\u2028", "{"]
 
 
 NS_NAMES = ["m:x", "m:row", "svg:g", "svg:c"]
@@ -955,7 +979,7 @@ def gen_html_doc(r, ns=None):
         name = name or r.choice(G.HTML_NAMES)
         attrs = []
         if name == "a" and r.chance(2, 3):
-            attrs.append(("href", r.choice(["x.html", "a b", "a/b.c"] if plain else ["x.html", "a b", "q?x=1&y=2", "caf\u00e9", "%20z"])))
+            attrs.append(("href", r.choice(["x.html", "a b", "a/b.c"] if plain else ["x.html", "a b", "q?x=1&y=2", "caf\u00e9", "%20z", 'a"b', "\u20ac/\u0416 z", "t\tu", "&{v}"])))
         if name == "img":
             attrs.append(("src", r.choice(["i.png", "a b.png"])))
         if name in ("input", "option", "select", "textarea") and r.chance(1, 2):
@@ -1088,7 +1112,8 @@ def run_sax_html(ctx, r, runner, state, tab):
     for t in range(n + len(corpus)):
         doc = corpus[t] if t < len(corpus) else gen_html_doc(r)
         evs = G.events_of(doc)
-        vs = [("noindent", dict(G.BASE_CFG, method="html", indent=False, enc=r.choice(["UTF-8", "UTF-8", "ISO-8859-1"]))),
+        vs = [("noindent", dict(G.BASE_CFG, method="html", indent=False, enc=r.choice(["UTF-8", "UTF-8", "ISO-8859-1", "US-ASCII", "UTF-16"]),
+                                escurls=r.chance(2, 3))),
               ("indent0", dict(G.BASE_CFG, method="html", indent=True, amount=0)),
               ("indent%d" % r.range(1, 4), dict(G.BASE_CFG, method="html", indent=True, amount=r.range(1, 4), omitmeta=r.chance(1, 3),
                                                 dsys=r.choice(["", "s.dtd"]), dpub=r.choice(["", "-//W3C//DTD HTML 4.01//EN", "-//W3C//DTD XHTML 1.0 Strict//EN"]),
